@@ -36,6 +36,8 @@ structure Globals where
   redactedFieldsRegexp : Option (Str → Bool)
   Encrypt : Bytes → Option Bytes → Option Bytes        -- `none` = the error return
   b64 : Bytes → Str
+  /-- the stage walker `redactPipelineStage` (not translated): a parameter of the translated dispatch functions -/
+  redactPipelineStage : J → Bool → List Str → Bool → Option J
 
 /-- `xs[i]` -/
 def idx {α : Type} (xs : List α) (i : Int) : Option α :=
